@@ -155,6 +155,18 @@ theorem c07_status_channel_survives_child_setup (c : Cfg) (rs : List SResp)
   have := childSteps_dup2_target c p sr' f d hmem
   omega
 
+
+/-- **C07 (no copy of the status channel is left where the child would inherit it).**  The original of a moved
+    status write end -- a descriptor 0-2 without close-on-exec, kept open only so that the stream pipes do not
+    land there -- is closed again before the fork: at the fork no placeholder is held, and what was released has
+    really been closed.  (A started program that inherited it would keep `Popen::create` from seeing end-of-file.) -/
+theorem c07_placeholder_released_before_fork (c : Cfg) (rs : List SResp)
+    (hfork : (acquireAll (stagesOf c) (s0 c) rs).fail = none) :
+    (acquireAll (stagesOf c) (s0 c) rs).s.low = none ∧
+    closedBy (acquireAll (stagesOf c) (s0 c) rs).s.calls = (acquireAll (stagesOf c) (s0 c) rs).s.released := by
+  obtain ⟨p1, -⟩ := prefork_facts c rs
+  exact ⟨low_released_at_fork c rs hfork, p1⟩
+
 /-! ### Non-vacuity (tests, labelled as tests) -/
 def cfgPPP : Cfg := { sin := .pipe, sout := .pipe, serr := .pipe, detached := true, cwd := false, uid := none, gid := none,
                       pgid := false, argvEmpty := false, nul := false, ncand := 1 }
